@@ -6,22 +6,27 @@
   `MatrixUtil_buildMatrix` calls and the four penalty loops over `array[y][x]`, the final `buildMatrix` with every
   `matrix.Get/Set` of the embed steps and of the zig-zag loop) returns a symbol or a WriterException for EVERY
   payload, level and mask hint once a version row of the table is fixed: index safety of every loop of the back half.
-  The first half (`encodeFront`: mode choice, data-bit loops, hint parsing) is covered by the oracle of suite
-  `qrenc-total` (no call may panic) and by the correspondence of whole calls; its totality is not a theorem.
+  wp `enc2`: the first half (`encodeFront`: level check, character set, `chooseMode`, data-bit loops, QR_VERSION hint /
+  `recommendVersion`, character count) is total as well (`mirror_encode_total`), and the QR writer front end of C12
+  is total over the MIRROR of `Encoder_encode` as its core (`encode_total_QR_mirror`; `Properties/C12.lean` has it over
+  the reference encoder).
 -/
 import Gzx.Proofs.QREncEncode
-import Gzx.Proofs.QREncFuncAll
+import Gzx.Proofs.QREncFuncAll40
+import Gzx.Proofs.QREncWriter
+import Gzx.Proofs.QREncKernels
+import Gzx.Properties.C12
 namespace Gzx.Properties.C12QR
 open Gzx Gzx.QRRef Gzx.QREnc
 
-/-- `mirror_encodeBack_total_partial`: for every version 1..40 (given `FuncOK v`; 1..10: `funcOK_small`), every
-    level, every payload of any length and every mask hint, `encodeBack` is `.ok _` or the checked error
-    "data bits cannot fit in the QR Code" — never a panic, never out of fuel. -/
-theorem mirror_encodeBack_total_partial {K : Kernels} (hK : KernelsOK K) (v : Nat) (h1 : 1 ≤ v) (h40 : v ≤ 40)
-    (hf : FuncOK v) (maskHint : Option HintVal) (f : FrontResult) (hv : f.version = versionInfo v) :
+/-- `mirror_encodeBack_total`: for every version 1..40, every level, every payload of any length and every mask
+    hint, `encodeBack` is `.ok _` or the checked error "data bits cannot fit in the QR Code" — never a panic, never
+    out of fuel. -/
+theorem mirror_encodeBack_total {K : Kernels} (hK : KernelsOK K) (v : Nat) (h1 : 1 ≤ v) (h40 : v ≤ 40)
+    (maskHint : Option HintVal) (f : FrontResult) (hv : f.version = versionInfo v) :
     (∃ t, encodeBack K maskHint f = .ok t) ∨ encodeBack K maskHint f = .error .writer := by
   by_cases hfit : f.headerAndDataBits.length ≤ 8 * dataCodewords v f.ec
-  · obtain ⟨t, ht, _⟩ := encodeBack_eq_ref hK v h1 h40 hf maskHint f hv hfit
+  · obtain ⟨t, ht, _⟩ := encodeBack_eq_ref hK v h1 h40 (funcOK_all v h1 h40) maskHint f hv hfit
     exact Or.inl ⟨t, ht⟩
   · right
     obtain ⟨b, hb, hnb, hnd, htotal⟩ := ecBlocks_facts v h1 h40 f.ec
@@ -31,13 +36,36 @@ theorem mirror_encodeBack_total_partial {K : Kernels} (hK : KernelsOK K) (v : Na
     simp only [bind, Except.bind, htotal, hnd]
     rw [terminateBits_refuses _ _ (by omega)]
 
-/-- versions 1..10 without further hypothesis -/
-theorem mirror_encodeBack_total {K : Kernels} (hK : KernelsOK K) (v : Nat) (h1 : 1 ≤ v) (h10 : v ≤ 10)
-    (maskHint : Option HintVal) (f : FrontResult) (hv : f.version = versionInfo v) :
-    (∃ t, encodeBack K maskHint f = .ok t) ∨ encodeBack K maskHint f = .error .writer :=
-  mirror_encodeBack_total_partial hK v h1 (by omega) (funcOK_small v h1 h10) maskHint f hv
-
 example : ∃ f : FrontResult, f.version = versionInfo 3 :=
   ⟨⟨.M, .byte, [], [], versionInfo 3, List.replicate 5000 true⟩, rfl⟩
+
+/-- `mirror_encode_total`: the whole `Encoder_encode` mirror (both halves) returns a symbol or a WriterException for
+    EVERY content, level value, CHARACTER_SET / GS1_FORMAT / QR_VERSION / QR_MASK_PATTERN hint values of any dynamic
+    type and any codec results: never a panic, never out of fuel. -/
+theorem mirror_encode_total {K : Kernels} (hK : KernelsOK K) (inp : EncInput) :
+    (∃ t, encode K inp = .ok t) ∨ encode K inp = .error .writer := by
+  rcases encode_total hK inp with ⟨t, ht, _⟩ | he
+  · exact Or.inl ⟨t, ht⟩
+  · exact Or.inr he
+
+/-- `encode_total_QR_mirror`: C12 "terminates without panicking" for `QRCodeWriter.Encode` with the MIRROR of
+    `Encoder_encode` as its core — for every content, format, size and hint map, whatever the registry / codecs /
+    hint conversion (`prep`, `knownCharset`) answer. -/
+theorem encode_total_QR_mirror {K : Kernels} (hK : KernelsOK K)
+    (prep : List Nat → Int → WriterFrontend.Hints → EncInput) (knownCharset : WriterFrontend.HintVal → Bool) :
+    ∀ content fmt w h hints,
+      WriterFrontend.NoPanic (WriterFrontend.encodeQR ⟨knownCharset, WriterFrontend.qrMirrorCore K prep⟩ content fmt w h hints) :=
+  Gzx.Properties.C12.encode_total_QR _ (WriterFrontend.qrMirrorCore_total hK prep knownCharset)
+
+/-- the dimension clause over the mirror -/
+theorem encode_dims_QR_mirror {K : Kernels} (hK : KernelsOK K)
+    (prep : List Nat → Int → WriterFrontend.Hints → EncInput) (knownCharset : WriterFrontend.HintVal → Bool) :
+    ∀ content fmt w h hints img,
+      WriterFrontend.encodeQR ⟨knownCharset, WriterFrontend.qrMirrorCore K prep⟩ content fmt w h hints = .ok img →
+      ∃ ecl md, WriterFrontend.qrMirrorCore K prep content ecl hints = .ok md ∧
+        (md.mw : Int) ≤ img.w ∧ (md.mh : Int) ≤ img.h ∧ max w 1 ≤ img.w ∧ max h 1 ≤ img.h :=
+  Gzx.Properties.C12.encode_dims_QR _ (WriterFrontend.qrMirrorCore_total hK prep knownCharset)
+
+example : KernelsOK refKernels := refKernels_ok
 
 end Gzx.Properties.C12QR
